@@ -376,101 +376,17 @@ sa_addr_is_eq(const sockaddr_storage_t *addr1,
  * [2001:4f8:fff6::28]
  * 2001:4f8:fff6::28
  */
-int
-sa_addr_from_str(sockaddr_storage_p addr,
-    const char *buf, size_t buf_size) {
+/* Text [ptm, ptm_end) is exactly address: no spaces, no brackets. */
+static int
+sa_addr_from_text__int(sockaddr_storage_p addr, const char *ptm,
+    const char *ptm_end, const uint16_t port) {
 	size_t addr_size, i;
 	char straddr[STR_ADDR_LEN];
-	const char *ptm, *ptm_end;
-
-	if (NULL == addr || NULL == buf || 0 == buf_size)
-		return (EINVAL);
-
-	ptm = buf;
-	ptm_end = (buf + buf_size);
-	/* Skip spaces, tabs and [ before address. */
-	while (ptm < ptm_end && (' ' == (*ptm) || '\t' == (*ptm) || '[' == (*ptm))) {
-		ptm ++;
-	}
-	/* Skip spaces, tabs and ] after address. */
-	while (ptm < ptm_end && (' ' == (*(ptm_end - 1)) ||
-	    '\t' == (*(ptm_end - 1)) ||
-	    ']' == (*(ptm_end - 1)))) {
-		ptm_end --;
-	}
 
 	addr_size = (size_t)(ptm_end - ptm);
 	if (0 == addr_size ||
-	    (sizeof(straddr) - 1) < addr_size)
-		return (EINVAL);
-	memcpy(straddr, ptm, addr_size);
-	straddr[addr_size] = 0;
-
-	/* AF_INET, AF_INET6 */
-	for (i = 0; i < nitems(family_list); i ++) {
-		if (0 != sa_init(addr, family_list[i], NULL, 0))
-			continue;
-		if (1 == inet_pton(family_list[i], straddr,
-		    sa_addr_get(addr)))
-			return (sa_port_set(addr, 0));
-	}
-	/* AF_UNIX */
-	if ('/' == straddr[0] || '.' == straddr[0]) {
-		return (sa_init(addr, AF_UNIX, straddr, 0)); /* EINVAL: path too long. */
-	}
-	/* Fail: unknown address. */
-	return (EINVAL);
-}
-
-/* Ex:
- * 127.0.0.1:1234
- * [2001:4f8:fff6::28]:1234
- * 2001:4f8:fff6::28:1234 - wrong, but work.
- */
-int
-sa_addr_port_from_str(sockaddr_storage_p addr,
-    const char *buf, size_t buf_size) {
-	size_t addr_size, i;
-	uint16_t port = 0;
-	char straddr[STR_ADDR_LEN];
-	const char *ptm, *ptm_end;
-
-	if (NULL == addr || NULL == buf || 0 == buf_size)
-		return (EINVAL);
-
-	ptm = mem_rchr(buf, buf_size, ':'); /* Addr-port delimiter. */
-	ptm_end = mem_rchr(buf, buf_size, ']'); /* IPv6 addr end. */
-	if (NULL != ptm &&
-	    ptm > buf &&
-	    ':' != (*(ptm - 1))) { /* IPv6 or port. */
-		if (ptm > ptm_end) { /* ptm = port (':' after ']') */
-			if (NULL == ptm_end) {
-				ptm_end = ptm;
-			}
-			ptm ++;
-			if (0 != str2u16_chk(ptm, (size_t)(buf_size - (size_t)(ptm - buf)),
-			    0xffff, &port))
-				return (EINVAL); /* Not a port number. */
-		}/* else - IPv6 and no port. */
-	}
-	if (NULL == ptm_end) {
-		ptm_end = (buf + buf_size);
-	}
-	ptm = buf;
-	/* Skip spaces, tabs and [ before address. */
-	while (ptm < ptm_end && (' ' == (*ptm) || '\t' == (*ptm) || '[' == (*ptm))) {
-		ptm ++;
-	}
-	/* Skip spaces, tabs and ] after address. */
-	while (ptm < ptm_end && (' ' == (*(ptm_end - 1)) ||
-	    '\t' == (*(ptm_end - 1)) ||
-	    ']' == (*(ptm_end - 1)))) {
-		ptm_end --;
-	}
-
-	addr_size = (size_t)(ptm_end - ptm);
-	if (0 == addr_size ||
-	    (sizeof(straddr) - 1) < addr_size)
+	    (sizeof(straddr) - 1) < addr_size ||
+	    NULL != memchr(ptm, 0x00, addr_size)) /* Text after 0x00 will be lost. */
 		return (EINVAL);
 	memcpy(straddr, ptm, addr_size);
 	straddr[addr_size] = 0;
@@ -485,10 +401,108 @@ sa_addr_port_from_str(sockaddr_storage_p addr,
 	}
 	/* AF_UNIX */
 	if ('/' == straddr[0] || '.' == straddr[0]) {
+		if (0 != port)
+			return (EINVAL);
 		return (sa_init(addr, AF_UNIX, straddr, 0)); /* EINVAL: path too long. */
 	}
 	/* Fail: unknown address. */
 	return (EINVAL);
+}
+
+/* Skip spaces and tabs around, then one pair of brackets: "[addr]tail".
+ * Return: address text in [ptm, ptm_end), text after ']' in [tail, tail_end),
+ * tail = NULL if no brackets. */
+static int
+sa_addr_text_bounds__int(const char *buf, size_t buf_size,
+    const char **ptm_ret, const char **ptm_end_ret,
+    const char **tail_ret, const char **tail_end_ret) {
+	const char *ptm, *ptm_end, *pbr;
+
+	ptm = buf;
+	ptm_end = (buf + buf_size);
+	/* Skip spaces and tabs before and after. */
+	while (ptm < ptm_end && (' ' == (*ptm) || '\t' == (*ptm))) {
+		ptm ++;
+	}
+	while (ptm < ptm_end && (' ' == (*(ptm_end - 1)) ||
+	    '\t' == (*(ptm_end - 1)))) {
+		ptm_end --;
+	}
+	if (ptm == ptm_end)
+		return (EINVAL);
+	(*tail_ret) = NULL;
+	(*tail_end_ret) = ptm_end;
+	if ('[' == (*ptm)) { /* One '[' and only together with one ']'. */
+		ptm ++;
+		pbr = memchr(ptm, ']', (size_t)(ptm_end - ptm));
+		if (NULL == pbr)
+			return (EINVAL);
+		(*tail_ret) = (pbr + 1);
+		ptm_end = pbr;
+	}
+	(*ptm_ret) = ptm;
+	(*ptm_end_ret) = ptm_end;
+	return (0);
+}
+
+int
+sa_addr_from_str(sockaddr_storage_p addr,
+    const char *buf, size_t buf_size) {
+	int error;
+	const char *ptm, *ptm_end, *tail, *tail_end;
+
+	if (NULL == addr || NULL == buf || 0 == buf_size)
+		return (EINVAL);
+	error = sa_addr_text_bounds__int(buf, buf_size, &ptm, &ptm_end,
+	    &tail, &tail_end);
+	if (0 != error)
+		return (error);
+	if (NULL != tail && tail != tail_end)
+		return (EINVAL); /* Some text after ']'. */
+	return (sa_addr_from_text__int(addr, ptm, ptm_end, 0));
+}
+
+/* Ex:
+ * 127.0.0.1:1234
+ * [2001:4f8:fff6::28]:1234
+ * 2001:4f8:fff6::28 - IPv6 addr without port: text that is whole an address
+ * is the address, port delimiter is looked for only if it is not.
+ */
+int
+sa_addr_port_from_str(sockaddr_storage_p addr,
+    const char *buf, size_t buf_size) {
+	int error;
+	uint16_t port = 0;
+	const char *ptm, *ptm_end, *tail, *tail_end, *pport;
+
+	if (NULL == addr || NULL == buf || 0 == buf_size)
+		return (EINVAL);
+	error = sa_addr_text_bounds__int(buf, buf_size, &ptm, &ptm_end,
+	    &tail, &tail_end);
+	if (0 != error)
+		return (error);
+	if (NULL != tail) { /* [addr] or [addr]:port, nothing else. */
+		if (tail != tail_end) {
+			if (':' != (*tail))
+				return (EINVAL); /* Some text after ']'. */
+			tail ++;
+			if (0 != str2u16_chk(tail, (size_t)(tail_end - tail),
+			    0xffff, &port))
+				return (EINVAL); /* Not a port number. */
+		}
+		return (sa_addr_from_text__int(addr, ptm, ptm_end, port));
+	}
+	/* No brackets: whole text is addr (IPv6 have ':' inside, unix path may). */
+	if (0 == sa_addr_from_text__int(addr, ptm, ptm_end, 0))
+		return (0);
+	/* addr:port */
+	pport = mem_rchr(ptm, (size_t)(ptm_end - ptm), ':'); /* Addr-port delimiter. */
+	if (NULL == pport || pport == ptm)
+		return (EINVAL);
+	if (0 != str2u16_chk((pport + 1), (size_t)(ptm_end - (pport + 1)),
+	    0xffff, &port))
+		return (EINVAL); /* Not a port number. */
+	return (sa_addr_from_text__int(addr, ptm, pport, port));
 }
 
 int
